@@ -41,7 +41,7 @@ import (
 	"github.com/dadrus/heimdall/internal/rules/mechanisms/template"
 	"github.com/dadrus/heimdall/internal/x"
 	"github.com/dadrus/heimdall/internal/x/errorchain"
-	"github.com/dadrus/heimdall/internal/x/stringx"
+	"github.com/dadrus/heimdall/internal/x/hashx"
 )
 
 // by intention. Used only during application bootstrap
@@ -454,9 +454,9 @@ func (a *oauth2IntrospectionAuthenticator) getCacheTTL(introspectResp *oauth2.In
 
 func (a *oauth2IntrospectionAuthenticator) calculateCacheKey(ep *endpoint.Endpoint, templatedURL, token string) string {
 	digest := sha256.New()
-	digest.Write(ep.Hash())
-	digest.Write(stringx.ToBytes(templatedURL))
-	digest.Write(stringx.ToBytes(token))
+	hashx.WriteBytes(digest, ep.Hash())
+	hashx.WriteString(digest, templatedURL)
+	hashx.WriteString(digest, token)
 
 	return hex.EncodeToString(digest.Sum(nil))
 }
